@@ -76,3 +76,6 @@ pub assume_specification[f64::is_nan](f: f64) -> (r: bool) ensures r == f64_is_n
 pub assume_specification[f64::is_finite](f: f64) -> (r: bool) ensures r == f64_is_finite(f);
 pub assume_specification[f64::abs](f: f64) -> (r: f64) ensures r == f64_abs(f);
 pub assume_specification[f64::trunc](f: f64) -> (r: f64) ensures r == f64_trunc(f);
+
+pub assume_specification<T: std::ops::Deref> [std::option::Option::<T>::as_deref] (o: &std::option::Option<T>) -> (r: std::option::Option<&<T as std::ops::Deref>::Target>)
+    ensures r is Some <==> o is Some;
